@@ -20,7 +20,10 @@ EXPLANATION = (
     "option parser, the example data, the example command and the template loader; R6 the --ode-modifier parser accumulates: an entry is "
     "created only for a species seen for the first time and every term is appended to that entry (no update/overwrite/re-binding); R7 every "
     "store of a modifier table anywhere in the package (Network, configuration, commands) stores the whole table received -- nothing between "
-    "the user and _prepare_ode_content filters or rewrites it.")
+    "the user and _prepare_ode_content filters or rewrites it (also not a helper between network.rate_modifier and the generator: R3); R1 also: the "
+    "reaction to override is not looked up in a table with one slot per file index; R2 also: idxfromfile is written by the reaction parsers and by "
+    "Network.reindex only, and never chosen by the truthiness of the raw index (0 is an index).  Verdicts: VIOLATION only for a construct that was "
+    "reconstructed completely and differs from the requirement; an arrangement that is not read answers UNRECOGNISED.")
 ASSUMPTIONS = [
     "the Jacobian part of a modifier is C02.R1/R2",
     "option values containing the separators ':' ',' ';' are C20's residual",
